@@ -244,6 +244,45 @@ def stored_signature(alias):
         return {'error': '%s: %s' % (type(e).__name__, e)}
 
 
+def _insert_rows(nrows):
+    """Insert nrows rows into every table of the generated apps (ids 1..n),
+    values chosen by column type; nullable columns get NULL in row 2."""
+    from django.apps import apps
+    from django.conf import settings
+    from django.db import connection, models
+    labels = [a for a in settings.INSTALLED_APPS
+              if a not in ('django.contrib.contenttypes', 'django_evolution')]
+    with connection.constraint_checks_disabled():
+        for label in labels:
+            for model in apps.get_app_config(label).get_models():
+                for r in range(nrows):
+                    cols, vals = [], []
+                    for f in model._meta.local_fields:
+                        if isinstance(f, models.AutoField):
+                            v = r + 1
+                        elif f.remote_field is not None:
+                            v = (r % nrows) + 1
+                        elif isinstance(f, (models.CharField, models.TextField)):
+                            v = ['v1', "it's %s"][r % 2]
+                            if f.unique:
+                                v = '%s#%d' % (v, r)
+                        elif isinstance(f, models.BooleanField):
+                            v = bool(r % 2)
+                        elif isinstance(f, models.IntegerField):
+                            v = [7, -1][r % 2] if not f.unique else r + 10
+                        else:
+                            v = 1
+                        if f.null and r == 1 and not f.primary_key:
+                            v = None
+                        cols.append(f.column)
+                        vals.append(v)
+                    with connection.cursor() as cur:
+                        cur.execute('INSERT INTO "%s" (%s) VALUES (%s)' % (
+                            model._meta.db_table,
+                            ', '.join('"%s"' % c for c in cols),
+                            ', '.join(['%s'] * len(vals))), vals)
+
+
 def main():
     req = json.loads(sys.stdin.read())
     import django
@@ -318,6 +357,8 @@ def main():
                              **req.get('options', {}))
             elif action == 'snapshot':
                 pass
+            elif action == 'insert_rows':
+                _insert_rows(req.get('nrows', 2))
             else:
                 raise ValueError('unknown action %r' % action)
     except BaseException as e:
